@@ -339,7 +339,9 @@ class CSSSerializer(object):
         self._level = 0  # current nesting level
 
         # TODO:
-        self._selectors = []  # holds SelectorList
+        # SelectorLists seen so far in the sheet being serialized
+        # (prefs.indentSpecificities), None while no sheet is being serialized
+        self._selectors = None
         self._selectorlevel = 0  # current specificity nesting level
 
     def _atkeyword(self, rule):
@@ -410,16 +412,22 @@ class CSSSerializer(object):
         """serializes a complete CSSStyleSheet"""
         useduris = stylesheet._getUsedURIs()
         out = []
-        for rule in stylesheet.cssRules:
-            if self.prefs.keepUsedNamespaceRulesOnly and\
-               rule.NAMESPACE_RULE == rule.type and\
-               rule.namespaceURI not in useduris and (
-                    rule.prefix or None not in useduris):
-                continue
+        # the selector memo belongs to one serialization of one sheet
+        oldselectors, oldselectorlevel = self._selectors, self._selectorlevel
+        self._selectors, self._selectorlevel = [], 0
+        try:
+            for rule in stylesheet.cssRules:
+                if self.prefs.keepUsedNamespaceRulesOnly and\
+                   rule.NAMESPACE_RULE == rule.type and\
+                   rule.namespaceURI not in useduris and (
+                        rule.prefix or None not in useduris):
+                    continue
 
-            cssText = rule.cssText
-            if cssText:
-                out.append(cssText + self.prefs.linesAfterRules)
+                cssText = rule.cssText
+                if cssText:
+                    out.append(cssText + self.prefs.linesAfterRules)
+        finally:
+            self._selectors, self._selectorlevel = oldselectors, oldselectorlevel
         text = self._linenumbers(self.prefs.lineSeparator.join(out))
 
         # get encoding of sheet, defaults to UTF-8
@@ -796,7 +804,7 @@ class CSSSerializer(object):
 
         # prepare for element nested rules
         # TODO: sort selectors!
-        if self.prefs.indentSpecificities:
+        if self.prefs.indentSpecificities and self._selectors is not None:
             # subselectorlist?
             elements = set([s.element for s in rule.selectorList])
             specitivities = [s.specificity for s in rule.selectorList]
